@@ -18,5 +18,5 @@ PY
 export GOFLAGS=-mod=mod GOPROXY=off GOSUMDB=off GOTOOLCHAIN=local GOWORK=off
 (cd "$d/repo" && go build ./... 2>&1 | head -5)
 for id in $ids; do
-  CSVERIFY_REPO="$d/repo" CSVERIFY_EVIDENCE_DIR="$d/ev" /verif/bin/csverify check $id 2>&1 | grep -E "^(FINDING|OK|INFRA|KNOWN)" | cut -c1-260
+  CSVERIFY_REPO="$d/repo" CSVERIFY_EVIDENCE_DIR="$d/ev" ${CSVERIFY_BIN:-/verif/bin/csverify} check $id 2>&1 | grep -E "^(FINDING|OK|INFRA|KNOWN)" | cut -c1-260
 done
